@@ -2,11 +2,10 @@
   C19 witnesses: concrete inputs on which the code's pair table deviates from MuJoCo's rule, or on which the
   literal reading of a requested statement is false.
 
-  W1 `self_pair_overwrites_unrelated_entry_witness` (F1, REACHABLE: MuJoCo 3.x compiles
-     `<pair geom1="g0" geom2="g0"/>`; confirmed on the real `put_model`/`forward`: MuJoCo reports the contact
-     (g0, g0), mujoco_warp reports a contact (g1, g2) with the pair's condim although contype = conaffinity = 0 on
-     both).  3 geoms on 3 free bodies, geoms 1 and 2 with zero masks, one explicit pair (0, 0): the table is
-     [-2, -2, 0] — the entry of (1, 2) carries pair id 0.  General form: `self_pair_hits_unrelated_slot`.
+  (W1, the explicit pair of a geom with itself written into the slot of an unrelated pair, is GONE: the defect was
+     repaired in /repo by commit 6cb912c — `put_model` raises NotImplementedError — and the statement it refuted is now
+     a theorem, `Props.C19.pair_table_eq_spec` for every accepted configuration; the general form of the aliasing is
+     `Props.C19.self_pair_has_no_slot`, the reason for the rejection.)
   W2 `duplicate_pairs_last_wins_witness` (F2): pairs (0,1) and (1,0): ONE table entry, value 1; MuJoCo reports one
      contact per explicit pair (two contacts, condims of pair 0 and pair 1), mujoco_warp one (pair 1).
   W3 `exclude_order_witness` (F3, not reachable from a compiled model): geom 0 on body 2, geom 1 on body 1,
@@ -20,49 +19,12 @@ set_option linter.unusedVariables false
 namespace Mjw.Props.C19Witness
 open Mjw Mjw.PairFilter Mjw.Lemmas.C19 Mjw.Props.C19
 
-/-! ## W1 -/
-
-def selfPairCfg : Cfg :=
-  { ngeom := 3, geom_bodyid := asFun [1, 2, 3], geom_contype := asFun [1, 0, 0], geom_conaffinity := asFun [1, 0, 0],
-    body_weldid := asFun [0, 1, 2, 3], body_parentid := asFun [0, 0, 0, 0], filterparent := true,
-    pairs := [(0, 0)], excludes := [] }
-
-/-- the explicit pair (0,0) puts its id into the slot of the geom pair (1,2), which no explicit pair lists and
-    which fails the dynamic rule (both masks are 0); without the pair the entry is -2 -/
-theorem self_pair_overwrites_unrelated_entry_witness :
-    pairTable selfPairCfg = some [-2, -2, 0]
-    ∧ (Gen.Math.upper_tri_index (K := Float) 3 1 2).toNat = 2
-    ∧ explicitId selfPairCfg.pairs 1 2 = none
-    ∧ ¬ codeRule selfPairCfg 1 2
-    ∧ pairTable { selfPairCfg with pairs := [] } = some [-2, -2, -2]
-    ∧ ¬ PairsValid selfPairCfg := by
-  refine ⟨by decide, by decide, by decide, ?_, by decide, ?_⟩
-  · intro h
-    have := h.1
-    revert this
-    decide
-  · intro h
-    have := (h (0, 0) (by simp [selfPairCfg])).2.2.2.2
-    exact this rfl
-
-/-- general form, every `n`: a degenerate pair `(k, k)` is written to the slot of the pair `(k-1, n-1)`
-    (`1 ≤ k < n`), and to index `-1` = the last slot `(n-2, n-1)` for `k = 0` -/
-theorem self_pair_hits_unrelated_slot {K : Type} [Scalar K] (n k : Nat) (hk : k < n) :
-    (1 ≤ k → upperTriIndex n k k = Gen.Math.upper_tri_index (K := K) n ((k - 1 : Nat) : Int) ((n - 1 : Nat) : Int))
-    ∧ (k = 0 → upperTriIndex n k k = -1) := by
-  have h := self_pair_index n k hk
-  constructor
-  · intro h1
-    rw [gen_upper_tri_index n (k - 1) (n - 1) (by omega) (by omega), h, if_neg (by omega)]
-  · intro h0
-    rw [h, if_pos h0]
-
 /-! ## W2 -/
 
 theorem duplicate_pairs_last_wins_witness :
     pairTable { ngeom := 2, geom_bodyid := asFun [1, 2], geom_contype := fun _ => 1, geom_conaffinity := fun _ => 1,
                 body_weldid := asFun [0, 1, 2], body_parentid := asFun [0, 0, 0], filterparent := true,
-                pairs := [(0, 1), (1, 0)], excludes := [] } = some [1] := by decide
+                pairs := [(0, 1), (1, 0)], excludes := [] } = .ok [1] := by decide
 
 /-! ## W3 -/
 
@@ -73,7 +35,7 @@ def exclOrderCfg : Cfg :=
 
 /-- the bodies {1, 2} are excluded, yet the table keeps the pair: the code forms the signature in GEOM order -/
 theorem exclude_order_witness :
-    pairTable exclOrderCfg = some [-1]
+    pairTable exclOrderCfg = .ok [-1]
     ∧ excluded [(1, 2)] (exclOrderCfg.geom_bodyid 0) (exclOrderCfg.geom_bodyid 1)
     ∧ exclOrderCfg.excludes = [(1, 2)].map (fun e : Int × Int => e.1 * 65536 + e.2)
     ∧ ¬ (exclOrderCfg.geom_bodyid 0 ≤ exclOrderCfg.geom_bodyid 1) := by
